@@ -84,12 +84,45 @@ pub fn run() -> i32 {
                     Err(_) => { rep.counterexample(&label, "a rendered snippet", "PANIC"); continue; }
                     Ok(t) => t,
                 };
-                // output: "error [E002]: m" / " --> t.slice:r:c" / snippet lines...
-                let got: Vec<String> = text.lines().skip(2).map(|l| l.trim_end_matches('\r').to_owned()).collect();
-                let header_ok = text.lines().nth(1).map(|l| l.trim() == format!("--> t.slice:{}:{}", s.0, s.1)).unwrap_or(false);
+                // output: "error [E002]: m" / " --> t.slice:r:c" / snippet lines. The comparison is STRUCTURAL, so that a
+                // cosmetic change of the frame (gutter width, separator glyph, blank frame lines) is not an alarm:
+                // a snippet line is <gutter><separator><rest>; the gutter holds the line number or blanks.
+                let header_ok = text.lines().nth(1).map(|l| l.contains(&format!("t.slice:{}:{}", s.0, s.1))).unwrap_or(false);
                 let want = expected(ls, *s, *e);
-                let norm = |v: &Vec<String>| v.iter().map(|l| l.trim_end().to_owned()).collect::<Vec<_>>();
-                if !header_ok || norm(&got) != norm(&want) {
+                let parse = |lines: Vec<String>| -> Option<Vec<(Option<usize>, String)>> {
+                    // (line number shown in the gutter, text after the separator) for every non-blank frame line
+                    let mut out = vec![];
+                    for l in lines {
+                        let chars: Vec<char> = l.chars().collect();
+                        let p = chars.iter().position(|c| !c.is_ascii_digit() && *c != ' ')?;
+                        let gutter: String = chars[..p].iter().collect();
+                        let rest: String = chars[p + 1..].iter().collect();
+                        if rest.trim().is_empty() && gutter.trim().is_empty() { continue; }
+                        out.push((gutter.trim().parse::<usize>().ok(), rest.trim_end().to_owned()));
+                    }
+                    Some(out)
+                };
+                let got_p = parse(text.lines().skip(2).map(|l| l.trim_end_matches('\r').to_owned()).collect());
+                let want_p = parse(want.clone());
+                // per displayed line: number, text (relative to its own indentation after the separator), and the
+                // underline's offset relative to that text, its glyphs and its length
+                let rel = |v: &Vec<(Option<usize>, String)>| -> Option<Vec<(usize, String, isize, String)>> {
+                    let mut out = vec![];
+                    let mut i = 0;
+                    while i + 1 < v.len() {
+                        let (Some(n), shown) = (&v[i].0, &v[i].1) else { return None };
+                        let lead = shown.chars().take_while(|c| *c == ' ').count() .min(1);
+                        let under = &v[i + 1].1;
+                        if v[i + 1].0.is_some() { return None; }
+                        let off = under.chars().take_while(|c| *c == ' ').count() as isize - lead as isize;
+                        out.push((*n, shown.chars().skip(lead).collect(), off, under.trim().to_owned()));
+                        i += 2;
+                    }
+                    if i != v.len() { return None; }
+                    Some(out)
+                };
+                let ok = match (got_p.as_ref().and_then(rel), want_p.as_ref().and_then(rel)) { (Some(g), Some(w)) => g == w, _ => false };
+                if !header_ok || !ok {
                     rep.counterexample(&label, &want.join("\n"), &text);
                 }
             }
